@@ -96,6 +96,69 @@ Proof.
   rewrite N.eqb_refl. reflexivity.
 Qed.
 
+(* ---------- the three kinds of step that change no stream ---------- *)
+
+Lemma spec_quiet s f r d : wf s -> filter noisy d = [] -> stays s f r ->
+  (forall id, RS.st_of (after_outs (RS.spec_next s (RS.Frame f) r) d) id = RS.st_of s id) /\
+  RS.highest (after_outs (RS.spec_next s (RS.Frame f) r) d) = RS.highest s /\
+  RS.goaway (after_outs (RS.spec_next s (RS.Frame f) r) d) = RS.goaway s || conn_err r /\
+  RS.dead (after_outs (RS.spec_next s (RS.Frame f) r) d) = RS.dead s || conn_err r.
+Proof.
+  intros W Q St. rewrite (after_outs_quiet _ _ Q).
+  split; [intro id; apply stays_st_of; assumption|]. split; [apply stays_highest; assumption|].
+  split; [apply goaway_spec_next | apply dead_spec_next].
+Qed.
+
+Lemma spec_goaway s f code d l : wf s -> filter noisy d = [OGoAway l code] ->
+  (forall id, RS.st_of (after_outs (RS.spec_next s (RS.Frame f) (RS.ConnErr code)) d) id = RS.st_of s id) /\
+  RS.highest (after_outs (RS.spec_next s (RS.Frame f) (RS.ConnErr code)) d) = RS.highest s /\
+  RS.goaway (after_outs (RS.spec_next s (RS.Frame f) (RS.ConnErr code)) d) = true /\
+  RS.dead (after_outs (RS.spec_next s (RS.Frame f) (RS.ConnErr code)) d) = true.
+Proof.
+  intros W Q. rewrite (after_outs_eq _ _ _ Q). cbn [rev app flat_map sent_of strip_late fold_left].
+  assert (St : stays s f (RS.ConnErr code)) by (left; reflexivity).
+  assert (W1 : wf (RS.spec_next s (RS.Frame f) (RS.ConnErr code))) by (apply wf_spec_next, W).
+  split; [intro id; rewrite st_of_spec_sent by assumption; cbn [sent_sid]; apply stays_st_of; assumption|].
+  split; [rewrite highest_spec_sent by assumption; apply stays_highest; assumption|].
+  split; [rewrite goaway_spec_sent; reflexivity|].
+  rewrite dead_spec_sent, dead_spec_next. apply orb_true_r.
+Qed.
+
+Lemma spec_rst s f code d : wf s -> filter noisy d = [ORst (RS.f_sid f) code] ->
+  stays s f (RS.StreamErr code) -> active (RS.st_of s (RS.f_sid f)) = false ->
+  (forall id, RS.st_of (after_outs (RS.spec_next s (RS.Frame f) (RS.StreamErr code)) d) id = RS.st_of s id) /\
+  RS.highest (after_outs (RS.spec_next s (RS.Frame f) (RS.StreamErr code)) d) = RS.highest s /\
+  RS.goaway (after_outs (RS.spec_next s (RS.Frame f) (RS.StreamErr code)) d) = RS.goaway s /\
+  RS.dead (after_outs (RS.spec_next s (RS.Frame f) (RS.StreamErr code)) d) = RS.dead s.
+Proof.
+  intros W Q St Ac. rewrite (after_outs_eq _ _ _ Q). cbn [rev app flat_map sent_of strip_late fold_left].
+  assert (W1 : wf (RS.spec_next s (RS.Frame f) (RS.StreamErr code))) by (apply wf_spec_next, W).
+  split.
+  { intro id. rewrite st_of_spec_sent by assumption. cbn [sent_sid]. rewrite stays_st_of by assumption.
+    destruct (RS.f_sid f =? id) eqn:E; [|reflexivity]. apply N.eqb_eq in E. subst id.
+    destruct (RS.st_of s (RS.f_sid f)); try discriminate; reflexivity. }
+  split; [rewrite highest_spec_sent by assumption; apply stays_highest; assumption|].
+  split; [rewrite goaway_spec_sent, goaway_spec_next; apply orb_false_r|].
+  rewrite dead_spec_sent, dead_spec_next. apply orb_false_r.
+Qed.
+
+(* nothing observed: the specification decides between "took effect" and "dropped" *)
+Lemma allowed_quiet s i :
+  RS.may_process s i = true \/ existsb (fun v => RS.admits v RS.Ignore) (RS.verdicts s i) = true ->
+  RS.allowed s i (resolve s i RS.Process) = true.
+Proof.
+  intros H. cbn [resolve]. destruct (RS.may_process s i) eqn:M.
+  - apply allowed_table. exact M.
+  - destruct H as [H|H]; [discriminate|]. apply allowed_table. exact H.
+Qed.
+
+Lemma stays_quiet s f : RS.receive (RS.st_of s (RS.f_sid f)) f = RS.st_of s (RS.f_sid f) ->
+  stays s f (resolve s (RS.Frame f) RS.Process).
+Proof. intro H. cbn [resolve]. destruct (RS.may_process _ _); right; right; [exact H | reflexivity]. Qed.
+
+Lemma conn_err_resolve_quiet s i : conn_err (resolve s i RS.Process) = false.
+Proof. cbn [resolve]. destruct (RS.may_process s i); reflexivity. Qed.
+
 Section Kit.
 Variable hstate : Type.
 Notation sconn := (sconn hstate).
@@ -152,5 +215,73 @@ Proof.
   - intros st H. rewrite A1 in H. rewrite (Hp st H). exact (S_ph _ _ _ _ HS st H).
   - rewrite A5. exact Hn.
 Qed.
+
+(* ---------- steps that touch one stream id ---------- *)
+
+Lemma sdrift_next s f r id : wf s -> id <> RS.f_sid f -> sdrift (RS.st_of s id) (RS.st_of (RS.spec_next s (RS.Frame f) r) id).
+Proof.
+  intros W Hne. rewrite st_of_spec_next_other by assumption. unfold sdrift.
+  destruct (RS.st_of s id); auto. destruct (_ && _)%bool; auto.
+Qed.
+
+(* the outputs of the step concern stream sid only *)
+Definition outs_on (sid : N) (d : list outev) : Prop :=
+  forall o, In o (flat_map sent_of (rev (filter noisy d))) -> sent_sid o = Some sid \/ sent_sid o = None.
+
+Lemma sdrift_after s f r d id : wf s -> id <> RS.f_sid f -> outs_on (RS.f_sid f) d ->
+  sdrift (RS.st_of s id) (RS.st_of (after_outs (RS.spec_next s (RS.Frame f) r) d) id).
+Proof.
+  intros W Hne Ho. unfold after_outs. rewrite st_of_fold_sent_untouched.
+  - apply sdrift_next; assumption.
+  - apply wf_spec_next, W.
+  - intros o Hin E. destruct (Ho o Hin) as [X|X]; congruence.
+Qed.
+
+Lemma live_tuple_one c c' s s2 ph ph' sid :
+  Sim c s ph -> Aux c' ->
+  (forall id, id <> sid -> option_map st_state (tbl c' id) = option_map st_state (tbl c id) /\
+                           (ring_find c' id = ring_find c id \/ ring_find c' id = None)) ->
+  (N.odd sid = true -> rel1 (view c' sid) (RS.st_of s2 sid)) ->
+  (forall id, id <> sid -> sdrift (RS.st_of s id) (RS.st_of s2 id)) ->
+  R_block hstate c' s2 -> RS.goaway s2 = sc_closing c' -> RS.highest s2 = sc_highestID c' ->
+  (sc_expectCont c' <> 0 -> tbl c' (sc_expectCont c') = None -> sc_discardID c' = sc_expectCont c' \/ RS.dead s2 = true) ->
+  (forall st, In st (sc_strms c') -> ph' (st_id st) = phase_of st) ->
+  (sc_closing c' = false -> forall id, N.odd id = true -> sc_highestID c' < id -> ph' id = RS.PStart) ->
+  live_tuple c' s2 ph'.
+Proof.
+  intros HS HA Hv Hsid Hsd Hb Hg Hh Hc Hp Hn.
+  split; [exact HA|]. split.
+  { intros id O. destruct (N.eq_dec id sid) as [->|Hne]; [apply Hsid, O|].
+    destruct (Hv id Hne) as [V1 V2].
+    eapply rel_drift; [apply (S_str _ _ _ _ HS id O) | apply vdrift_intro; assumption | apply Hsd, Hne]. }
+  repeat split; assumption.
+Qed.
+
+Lemma AuxT_ring_change c c' : AuxT c ->
+  sc_strms c' = sc_strms c -> sc_lastID c' = sc_lastID c -> sc_rl_done c' = sc_rl_done c -> sc_wl_dead c' = sc_wl_dead c ->
+  sc_readerQ c' = sc_readerQ c -> sc_highestID c <= sc_highestID c' -> ring_ok hstate c' ->
+  (forall st, In st (sc_strms c) -> ring_find c' (st_id st) = ring_find c (st_id st) \/ ring_find c' (st_id st) = None) ->
+  AuxT c'.
+Proof.
+  intros [B1 B2 B3 B4 B5 B6 B7 B8 B9 B10] A1 A4 A6 A7 A8 Hh Hr Hf.
+  constructor; rewrite ?A1, ?A4, ?A6, ?A7, ?A8; try assumption.
+  - lia.
+  - intros st H. rewrite in_ring_find. pose proof (B8 st H) as X. rewrite in_ring_find in X.
+    destruct (Hf st H) as [Y|Y]; rewrite Y; [exact X | reflexivity].
+Qed.
+
+(* marking an id closed only reads the ring *)
+Lemma mark_closed_ring_ext (x c : sconn) j w : sc_ring x = sc_ring c -> sc_oldest x = sc_oldest c ->
+  sc_ring (mark_closed x j w) = sc_ring (mark_closed c j w) /\ sc_oldest (mark_closed x j w) = sc_oldest (mark_closed c j w).
+Proof.
+  intros R O. unfold mark_closed, in_ring. rewrite R, O.
+  destruct (existsb _ (sc_ring c)); [auto|]. destruct (_ <? _); sc_cbn; auto.
+Qed.
+
+Lemma ring_ok_ext (x c : sconn) : sc_ring x = sc_ring c -> sc_oldest x = sc_oldest c -> ring_ok hstate c -> ring_ok hstate x.
+Proof. intros R O. unfold ring_ok. rewrite R, O. auto. Qed.
+
+Lemma ring_find_ext (x c : sconn) id : sc_ring x = sc_ring c -> ring_find x id = ring_find c id.
+Proof. intros R. unfold ring_find. rewrite R. reflexivity. Qed.
 
 End Kit.
